@@ -84,6 +84,7 @@ type hsClient struct {
 	URL        string
 	Debug      int  // 0 plain Dialer.Upgrade, 1 DebugDialer (both callbacks), 2 OnRequest only, 3 OnResponse only, 4 plain Dialer.Dial
 	Wrap       bool // Dial paths: the application installs its own WrapConn
+	Edited     bool // Upgrade path: the same Dialer value made an earlier handshake with another first offer in the same slice element
 	Reuse      bool // DebugDialer: the same value has already been used for an earlier Dial
 	EOFData    bool // the transport hands over the last bytes it has together with io.EOF
 	LiveCtx    bool // Dial paths: the caller's context is a cancellable one that stays alive throughout
@@ -136,7 +137,8 @@ func drawParams(r *eng.Run, flate bool) [][2]string {
 	}
 	for i := 0; i < n; i++ {
 		k := fmt.Sprintf("p%d", i)
-		v := []string{"", "1", "abc", "15", "x-y_z"}[r.T.Int(sim.LCfg, 5)]
+		// Tokens, and values that are legal only as a quoted string.
+		v := []string{"", "1", "abc", "15", "x-y_z", "a/b", "sha256:abcd", "two words", "a,b", "k=v;w", "(x)[y]@z"}[r.T.Int(sim.LCfg, 11)]
 		ps = append(ps, [2]string{k, v})
 	}
 	return ps
@@ -174,6 +176,8 @@ func drawHS(r *eng.Run) (hsClient, hsServer) {
 		c.Debug = 1 + r.T.Int(sim.LEntry, 4)
 		c.Wrap = r.T.Bool(sim.LCfg)
 		c.Reuse = r.T.Bool(sim.LCfg)
+	} else {
+		c.Edited = r.T.Chance(sim.LCfg, 1, 3)
 	}
 
 	s.Kind = []int{0, 0, 0, 1, 1, 2}[r.T.Int(sim.LEntry, 6)]
@@ -551,6 +555,20 @@ func runClientConn(r *eng.Run, c hsClient, p net.Conn, sent func() []byte, restL
 		if err != nil {
 			r.Internalf("url: %v", err)
 		}
+		if c.Edited && warm != nil && len(d.Extensions) > 0 {
+			// The same Dialer value has made a handshake before, with another
+			// first offer in the very same slice element; the application then
+			// wrote the offer it wants now over it.
+			want := d.Extensions[0]
+			d.Extensions[0] = httphead.Option{Name: []byte("x-earlier-offer")}
+			reseed()
+			if fbr, _, _ := d.Upgrade(warm(), u); fbr != nil {
+				ws.PutReader(fbr)
+			}
+			d.Extensions[0] = want
+			reseed()
+			r.Probe("dialer_reused_after_offer_edited_in_place")
+		}
 		br, hs, o.Err = d.Upgrade(p, u)
 	} else {
 		d.NetDial = func(ctx context.Context, network, addr string) (net.Conn, error) { return p, nil }
@@ -873,6 +891,41 @@ func checkWrappers(r *eng.Run, t *hsTrip) {
 	}
 }
 
+// tokenOnly maps a parameter value to an RFC 7230 token (drops what is not a
+// token character).
+func tokenOnly(v string) string {
+	var b []byte
+	for i := 0; i < len(v); i++ {
+		c := v[i]
+		if c >= '0' && c <= '9' || c >= 'a' && c <= 'z' || c >= 'A' && c <= 'Z' || c == '-' || c == '_' || c == '.' {
+			b = append(b, c)
+		}
+	}
+	if len(b) == 0 && len(v) > 0 {
+		return "t"
+	}
+	return string(b)
+}
+
+// tokenValues returns c with every offered parameter value made a token.
+func tokenValues(c hsClient) (hsClient, bool) {
+	changed := false
+	out := c
+	out.Exts = nil
+	for _, e := range c.Exts {
+		e2 := extSpec{Name: e.Name}
+		for _, p := range e.Params {
+			t := tokenOnly(p[1])
+			if t != p[1] {
+				changed = true
+			}
+			e2.Params = append(e2.Params, [2]string{p[0], t})
+		}
+		out.Exts = append(out.Exts, e2)
+	}
+	return out, changed
+}
+
 // C11: handshake outcome is shared by both peers and independent of
 // transport chunking.
 func C11(r *eng.Run) {
@@ -899,6 +952,20 @@ func C11(r *eng.Run) {
 	}
 	checkAgreement(r, "C11", t)
 	checkWrappers(r, t)
+	// Parameter values that are legal only as quoted strings: the same
+	// configuration with plain tokens in their place must not fare better.
+	if c2, changed := tokenValues(c); changed {
+		s2 := s
+		s2.FixedParams = nil
+		for _, p := range s.FixedParams {
+			s2.FixedParams = append(s2.FixedParams, [2]string{p[0], tokenOnly(p[1])})
+		}
+		t2 := roundTrip(r, c2, s2, rseed, segS, segC)
+		if t2.Server.ok() && t2.Client.ok() && !(t.Server.ok() && t.Client.ok()) {
+			r.Failf("quoted_parameter_value_breaks_handshake", "with plain tokens as parameter values both peers succeed; with values that need quoting: server %s, client %s\n  %s\n  %s", t.Server.summary(), t.Client.summary(), c, s)
+		}
+		r.Probe("extension_parameter_value_needs_quoting")
+	}
 	// The same pair as two concurrently scheduled tasks: the outcome must be
 	// the one of the sequential composition, whatever the interleaving.
 	if s.Kind != 1 || true {
@@ -1058,6 +1125,9 @@ func C16Handshake(r *eng.Run) {
 			r.Fault("handshake_request_write_fail")
 			if o.Err == nil {
 				r.Failf("failed_write_handshake_succeeded", "Dialer: request write call %d of %d failed after %d bytes: Upgrade returned success", j, len(probe.Pipe.WCalls), m)
+			}
+			if o.HasOnReq && !bytes.HasPrefix(p.Out, o.OnReq) {
+				r.FailProp("C11", "debug_dialer_reports_bytes_never_sent", "Dialer: request write call %d of %d failed after %d bytes: the transport took %d bytes, DebugDialer.OnRequest reports %d%s", j, len(probe.Pipe.WCalls), m, len(p.Out), len(o.OnReq), firstDiff(o.OnReq, p.Out))
 			}
 		}
 	}
